@@ -340,8 +340,7 @@ Section CmpExp.
     intros o v r Hv Hr. unfold cmpexp. rewrite Hpath.
     assert (Hs : seps1 (32 :: print_jv v ++ r) = Some (print_jv v ++ r)).
     { apply seps1_space. destruct (print_jv_head v Hv) as [c [t [He Hc]]]. rewrite He. exact Hc. }
-    destruct o; cbn [op_txt app]; (rewrite seps1_space by reflexivity); cbn [op_of];
-      cbv beta iota; change (op_of _ _) with (@Some (option cmp) (Some OEq)) at 0 || idtac.
+    destruct o; cbn [op_txt app]; (rewrite seps1_space by reflexivity).
     all: match goal with |- context [op_of ?a ?b] =>
            let x := eval vm_compute in (op_of a b) in change (op_of a b) with x end.
     all: cbv iota; rewrite Hs, (pvalue_print v r Hv Hr); reflexivity.
